@@ -105,11 +105,21 @@ class GaussSolver final : public bspline::interpolation::internal::ISolver<T> {
 template <class T>
 struct Snap {
   std::vector<size_t> idx;
+  std::vector<size_t> ident;  // identity of the data block (meaningful for before / after snapshots of ONE object and for copies)
   std::vector<T> vals;
+  // identical observable state: windows, storage identity, every value bit for bit
   bool same(const Snap &o) const {
-    if (idx != o.idx || vals.size() != o.vals.size()) return false;
+    if (idx != o.idx || ident != o.ident || vals.size() != o.vals.size()) return false;
     for (size_t i = 0; i < vals.size(); i++)
       if (!Traits<T>::same(vals[i], o.vals[i])) return false;
+    return true;
+  }
+  // the same VALUE held by two unrelated objects: they may live on logically equal grids in distinct objects (other
+  // storage, a zero grid point of the other sign), so storage identity and bit patterns are not compared
+  bool same_value(const Snap &o) const {
+    if (idx != o.idx || vals.size() != o.vals.size()) return false;
+    for (size_t i = 0; i < vals.size(); i++)
+      if (!Traits<T>::same(vals[i], o.vals[i]) && !(vals[i] == o.vals[i])) return false;
     return true;
   }
 };
@@ -178,7 +188,8 @@ class Interp {
     Snap<T> s;
     // which data block a grid holds is observable (getData()) and earlier references / iterators point into it: an
     // operation on OTHER objects must not re-seat it
-    s.idx = {g.size(), (size_t)reinterpret_cast<uintptr_t>(g.getData().get())};
+    s.idx = {g.size()};
+    s.ident = {(size_t)reinterpret_cast<uintptr_t>(g.getData().get())};
     s.vals = grid_points(g);
     auto d = g.getData();
     for (const auto &x : *d) s.vals.push_back(x);
@@ -186,7 +197,8 @@ class Interp {
   }
   Snap<T> snap(const Support<T> &x) const {
     Snap<T> s;
-    s.idx = {x.getStartIndex(), x.getEndIndex(), x.size(), (size_t)reinterpret_cast<uintptr_t>(x.getGrid().getData().get())};
+    s.idx = {x.getStartIndex(), x.getEndIndex(), x.size()};
+    s.ident = {(size_t)reinterpret_cast<uintptr_t>(x.getGrid().getData().get())};
     s.vals = grid_points(x.getGrid());
     // the view through the support's OWN accessors (they may be served from state cached inside the object)
     for (size_t i = 0; i < x.size(); i++) s.vals.push_back(x[i]);
@@ -938,7 +950,7 @@ class Interp {
             failing(); nt_c14 = true;
             if ((focus & F_C14) && !snap(va[a]).same(tsnap)) fail("C14", "in-place operation threw but changed its target");
           }
-          if (ok && expect && !snap(va[a]).same(snap(*expect))) fail("C14", "a op= b differs from a op b");
+          if (ok && expect && !snap(va[a]).same_value(snap(*expect))) fail("C14", "a op= b differs from a op b");
         }
         break;
       case P_BILFORM: {
@@ -991,7 +1003,7 @@ class Interp {
                 src.reset();
                 auto r1 = other * va[a];
                 auto r0 = ops::SplineOperator{vb[b]} * va[a];
-                if ((focus & (F_C09 | F_C14)) && !snap(r1).same(snap(r0))) fail(focus & F_C09 ? "C09" : "C14", "a copy-assigned SplineOperator does not act as the factor it was assigned from");
+                if ((focus & (F_C09 | F_C14)) && !snap(r1).same_value(snap(r0))) fail(focus & F_C09 ? "C09" : "C14", "a copy-assigned SplineOperator does not act as the factor it was assigned from");
                 store_spline(std::move(r1), fam(ka, a));
                 (void)(moved * va[a]);
                 break;
@@ -1144,12 +1156,12 @@ class Interp {
                 auto s1 = va[a] + vb[b];  // must equal b as a function: same window and coefficients as b promoted
                 Spline<T, oa> bb(vb[b].getSupport().getGrid());
                 bb = vb[b];
-                if (!snap(s1).same(snap(bb))) fail("C10", "moved-from spline + b is not b (moved-from object is not a zero spline)");
+                if (!snap(s1).same_value(snap(bb))) fail("C10", "moved-from spline + b is not b (moved-from object is not a zero spline)");
                 auto p1 = va[a] * vb[b];
                 if (!p1.isZero() || p1.getSupport().containsIntervals()) fail("C10", "moved-from spline * b is not interval-free");
                 switch ((unsigned)op.a % 3) {
                   case 0: va[a] = bb; if (!snap(va[a]).same(snap(bb))) fail("C10", "assignment to a moved-from spline did not take"); break;
-                  case 1: va[a] += vb[b]; if (!snap(va[a]).same(snap(bb))) fail("C10", "moved-from += b is not b"); break;
+                  case 1: va[a] += vb[b]; if (!snap(va[a]).same_value(snap(bb))) fail("C10", "moved-from += b is not b"); break;
                   default: va[a] = std::move(taken); break;
                 }
               });
